@@ -5,8 +5,8 @@
    (coq/Cli_Spec.v); cli_decide / cli_main / read_data_* / write_matrix / transpose /
    matrix_from_callback are the executable model (coq/Cli_Model.v). *)
 From Coq Require Import String Ascii List ZArith QArith Bool Arith.
-From TK Require Import Cli_Model Cli_Spec Cli_Proof_Decide Cli_Proof_Files Cli_Proof_Transpose
-  Cli_Proof_Pre Cli_Proof_Main Cli_Proof_Exit Cli_Proof_Gen Cli.
+From TK Require Import Cli_Model Cli_Spec Cli_Argv_Model Cli_Argv_Spec Cli_Proof_Argv Cli_Proof_Decide Cli_Proof_Files Cli_Proof_Transpose
+  Cli_Proof_Pre Cli_Proof_Main Cli_Proof_Exit Cli_Proof_Round Cli_Proof_Gen Cli.
 Import ListNotations.
 Local Close Scope Q_scope.
 Local Open Scope string_scope.
@@ -125,6 +125,37 @@ Theorem cli_outcomes : forall a,
 Proof. exact gen_outcomes. Qed.
 Print Assumptions cli_outcomes.
 
+(* ---- from the real argv (cxxopts' scanner modelled in Cli_Argv_Model.v) ---- *)
+Theorem cli_argv_refines_spec : forall rd argv,
+  cli_decide_argv rd gen_options gen_tables argv = spec_argv rd argv.
+Proof. exact gen_argv_spec. Qed.
+Print Assumptions cli_argv_refines_spec.
+
+(* the abstract command lines of the theorems above are exactly what the scanner makes of their
+   canonical spelling (-x v / --name v / --flag) *)
+Theorem cli_argv_concretize : forall rd a, Forall (wf_arg rd gen_options) a ->
+  cli_decide_argv rd gen_options gen_tables (concretize a) = spec_decide a.
+Proof. exact gen_argv_concretize. Qed.
+Print Assumptions cli_argv_concretize.
+
+Example cli_argv_concretize_nonvacuous :
+  Forall (wf_arg rd0 gen_options) [("k", AVal "5" None None); ("spe-local", AFlag); ("td", AVal "2" None None)].
+Proof.
+  repeat constructor.
+  - eexists. split; [vm_compute; reflexivity|]. split; [reflexivity|]. repeat split.
+  - eexists. split; [vm_compute; reflexivity|]. split; reflexivity.
+  - eexists. split; [vm_compute; reflexivity|]. split; [reflexivity|]. repeat split.
+Qed.
+
+(* quirks of the scanner: -td is the group -t -d (no such option); --td is the alias; one-letter names
+   cannot be written with two dashes *)
+Theorem cli_argv_quirks :
+  scan rd0 doc_options ["-td"; "0"] [] = None /\
+  scan rd0 doc_options ["--td"; "0"] [] = Some [("td", AVal "0" None None)] /\
+  scan rd0 doc_options ["--k"; "5"] [] = None.
+Proof. exact (conj argv_td_group (conj argv_td_long argv_long_one_letter)). Qed.
+Print Assumptions cli_argv_quirks.
+
 (* ---- files: rows <-> lines ---- *)
 Theorem cli_read_token_matrix : forall (V : Type) (parse : string -> option V) d (tm : list (list string)),
   Ascii.eqb d nl = false ->
@@ -208,6 +239,19 @@ Theorem cli_transposed_output_line : forall (V : Type) c (E : list (list V)) j,
 Proof. exact transposed_output_line. Qed.
 Print Assumptions cli_transposed_output_line.
 
+(* both flags together: the output file read back with the matching flag gives back the embedded samples *)
+Theorem cli_roundtrip_flags : forall (V : Type) (parse : string -> option V) (print : V -> string),
+  (forall v, parse (print v) = Some v) ->
+  forall d c (E : list (list V)),
+  Ascii.eqb d nl = false -> 0 < c -> rect V c E -> E <> [] ->
+  (forall v, clean d (print v) = true) ->
+  forall (transposed : bool) i r, nth_error E i = Some r ->
+  exists file,
+    read_data_fixed V parse d (cli_output V print d transposed E) = RMat file /\
+    sample V i (if negb transposed then transpose V file else file) = r.
+Proof. exact output_reread. Qed.
+Print Assumptions cli_roundtrip_flags.
+
 (* the line loop shipped before fix F41 read an unterminated last line twice *)
 Theorem cli_unterminated_last_line : forall ls l,
   Forall (fun x => has_char nl x = false) ls -> has_char nl l = false -> is_empty l = false ->
@@ -286,6 +330,21 @@ Print Assumptions precompute_same_values.
 
 Example precompute_same_values_nonvacuous : (forall a b, Nat.add a b = Nat.add b a) /\ 1 < 3.
 Proof. split; [exact Nat.add_comm|auto]. Qed.
+
+(* the two direct callbacks of the tool (linear kernel, Euclidean distance) ARE symmetric *)
+Theorem precompute_kernel_same_values : forall (X : nat -> list Z) (N a b : nat),
+  a < N -> b < N ->
+  precomputed Z (fun a b => dotZ (X a) (X b)) true N a b = Some (dotZ (X a) (X b)).
+Proof. exact precompute_kernel_same. Qed.
+Print Assumptions precompute_kernel_same_values.
+
+Theorem precompute_distance_same_values :
+  forall (S : Type) (sqrt_oracle : Z -> S) (X : nat -> list Z) (N a b : nat),
+  a < N -> b < N ->
+  precomputed S (fun a b => sqrt_oracle (sqdistZ (X a) (X b))) true N a b
+  = Some (sqrt_oracle (sqdistZ (X a) (X b))).
+Proof. exact precompute_distance_same. Qed.
+Print Assumptions precompute_distance_same_values.
 
 Theorem precompute_iterations_disjoint : forall N i i' c,
   i <> i' -> In c (cells_of_iter N i) -> In c (cells_of_iter N i') -> False.
